@@ -12,7 +12,16 @@ PROP = dict(
                 'pre-encoded buffers, one prebuilt dictionary) and (2) a hot '
                 'loop in which every thread calls the same codec entry point '
                 'back to back on one of four equal-length inputs (shared or a '
-                'thread-private copy), all with thread-private outputs; fully '
+                'thread-private copy), all with thread-private outputs; the '
+                'operation table was audited against the headers and the '
+                'exported symbols of the library: every public scalar entry '
+                'point (put/get, fixed-width and quick-macro forms, 32-bit '
+                'and 128-bit forms, reversed split forms, in-place adds as '
+                'histories on a private slot, single-value Elias coders with '
+                'a private bit writer, varintDeltaPut/Get and zig-zag, '
+                'dimension headers and a private matrix history, packed-array '
+                'and bitstream histories) and the pure helpers of the array '
+                'codecs are phase-1 operations and hot-loop kinds; fully '
                 'instrumented with ThreadSanitizer (any report is a '
                 'violation), and every result of every iteration (returned '
                 'length, metadata fields, output bytes) is compared with a '
@@ -28,12 +37,18 @@ PROP = dict(
                 'the ~10^8 compared calls per run, so a window of a few '
                 'instructions that additionally needs a rare input '
                 'relationship can be missed; trusts ThreadSanitizer, glibc '
-                'malloc/qsort being thread-safe, and the harness comparison'),
+                'malloc/qsort being thread-safe, and the harness comparison; '
+                'not called: varintBitmap* (a mutable object, not one of the '
+                'codecs the statement lists; C08/C18 own it), the *Bytes '
+                'wrappers of the packed template, and the header-less '
+                'varintPacked12* instantiation exported by varintDimension.c '
+                '(same template as the harness instantiation)'),
     rule=('case = (2..16 threads, repeat count, minimum lengths per pool slot '
           '(none/64/256/1024), hot-loop entry point + parameter + group + '
           'iteration budget, per-thread role (group member 0..3, shared or '
           'private copy), three pool arrays from the shared array generator, '
-          'per thread 1..8 operations (codec, input selector)); non-trivial = '
+          'per thread 1..8 operations (one of 33 codecs / scalar operations, '
+          'input selector)); non-trivial = '
           'at least two threads run the same codec on the same shared input '
           'concurrently (operation lists or hot loop); distinct by hash of '
           '(thread count, repeats, pool contents, hot-loop parameters, roles, '
@@ -56,16 +71,44 @@ PROP = dict(
                       'hot.elias.encode', 'hot.bp128.encode',
                       'hot.float.encode', 'hot.adaptive.encode',
                       'hot.adaptive.analyze', 'hot.delta.encode',
-                      'hot.group.encode', 'hot.decode'],
+                      'hot.group.encode', 'hot.decode',
+                      # scalar entry points (audit of the public scalar API)
+                      'concurrent.scalar.tagged.add',
+                      'concurrent.scalar.external.add',
+                      'concurrent.scalar.fixed', 'concurrent.scalar.chained32',
+                      'concurrent.scalar.split.reversed',
+                      'concurrent.elias.single', 'concurrent.delta.scalar',
+                      'concurrent.dimension.header',
+                      'concurrent.dimension.matrix',
+                      'concurrent.packed12.positional',
+                      'concurrent.array.helpers',
+                      'hot.scalar.tagged.add', 'hot.scalar.external.add',
+                      'hot.scalar.fixed', 'hot.scalar.chained32',
+                      'hot.scalar.split.reversed', 'hot.elias.single',
+                      'hot.delta.scalar', 'hot.dimension.header',
+                      'hot.dimension.matrix', 'hot.packed12.positional',
+                      'hot.array.helpers', 'hot.op.scalar.tagged',
+                      'hot.op.scalar.external', 'hot.op.scalar.chained',
+                      'hot.op.scalar.split', 'hot.op.packed12',
+                      'hot.op.bitstream'],
     assumptions=COMMON_ASSUME + [
         'the harness owns thread creation and the assignment of operations to '
         'threads; the operating system owns the schedule',
-        'outputs, packed arrays and bitstreams are thread-private; only the '
+        'outputs, varint slots, bit writers, matrices, packed arrays and '
+        'bitstreams are thread-private; only the '
         'inputs (arrays, encoded buffers, the prebuilt dictionary) are shared '
         'and nothing writes to them after the threads start',
         'metadata structs handed to the library are zero-initialised by the '
         'harness so that fields a codec leaves unwritten hash identically',
         'libc allocation, qsort and memcpy are thread-safe',
+        'in-place adds follow the documented caller protocol (return 0: '
+        'nothing changed; no-grow return above the slot width: nothing '
+        'changed; otherwise the value now occupies the returned width); '
+        'tagged fixed-width puts use widths that can represent the value; '
+        'varintChainedGetVarint32 is only called on multi-byte encodings; '
+        'Elias single-value coders get values >= 1; matrices have >= 1 '
+        'column; packed SetIncr gets a non-negative increment that stays in '
+        'range',
         'a result mismatch is a fact about one schedule: after the first '
         'violation of a process a shrink candidate counts only if it fails '
         'twice in three runs (at most 120 candidates are executed), and the '
